@@ -2,7 +2,7 @@
     Theorems only: statement, [exact], [Print Assumptions] (statements restated verbatim from the
     Inv_*.v files where they are proved).  See DESIGN.md section 5 for how each renders the property. *)
 From CB Require Import ProofLib Spec MonitorSound Results.
-From CB Require Import Inv_map Inv_filter Inv_scan Inv_skip Inv_take.
+From CB Require Import Inv_map Inv_filter Inv_scan Inv_skip Inv_take Inv_take_end.
 
 (** at every control point: delivered = map f received *)
 Theorem C07_map_functional (f : val -> val) p :
@@ -69,3 +69,15 @@ Theorem C07_skip_paired (max : nat) p :
   forall c : cfg (skip_op max), reach p g_std c -> paired (sk (ms c) 0) (us (ms c) 0).
 Proof. exact (@skip_paired max p). Qed.
 Print Assumptions C07_skip_paired.
+
+(** take claims its end with [end.swap(true)] on every path (fix 7f77d2f): in the conformant sequential
+    environment the flag is unset whenever the source can end, so the end of the source always reaches
+    the sink ([paired]); the guard only matters under threads (C19) *)
+Theorem C07_take_end_unset_when_source_ends p :
+  nsinks p = 1 -> resub p = false -> no_nest p = false -> c14 p = false ->
+  forall max, 1 <= max ->
+  forall (c : cfg (take_op max)) (m : dmsg),
+  reach p g_std c -> (m = DT \/ exists e, m = DE e) ->
+  enabled p g_std c (MIn (IDn 0 m)) = true -> tk_end (cst c) = false.
+Proof. exact (@take_end_unset_when_source_ends p). Qed.
+Print Assumptions C07_take_end_unset_when_source_ends.
